@@ -232,8 +232,22 @@ fn main() -> std::io::Result<()> {
         .unicode_error_messages(!matches.get_flag("NO_UNICODE"))
         .allows_charset(!matches.get_flag("NO_CHARSET"));
 
+    // With `--stdin` there is no input file, so the only positional argument names
+    // the output file (`grass --stdin out.css`), as in dart-sass.
+    let read_stdin = matches.get_flag("STDIN");
+    let input = if read_stdin {
+        None
+    } else {
+        matches.get_one::<String>("INPUT")
+    };
+    let output = if read_stdin {
+        matches.get_one::<String>("INPUT")
+    } else {
+        matches.get_one::<String>("OUTPUT")
+    };
+
     let (mut stdout_write, mut file_write);
-    let buf_out: &mut dyn Write = if let Some(path) = matches.get_one::<String>("OUTPUT") {
+    let buf_out: &mut dyn Write = if let Some(path) = output {
         file_write = OpenOptions::new()
             .create(true)
             .write(true)
@@ -246,9 +260,9 @@ fn main() -> std::io::Result<()> {
     };
 
     buf_out.write_all(
-        if let Some(name) = matches.get_one::<String>("INPUT") {
+        if let Some(name) = input {
             from_path(name, options)
-        } else if matches.get_flag("STDIN") {
+        } else if read_stdin {
             from_string(
                 {
                     let mut buffer = String::new();
